@@ -591,6 +591,8 @@ pub struct Observed {
     pub terminate_sent: bool,
     /// refresh flow position: number of ops requests sent before the refresh re-INVITE (None = no refresh flow ran)
     pub refresh_after: Option<usize>,
+    /// CSeq of a request created while the refresh re-INVITE was pending, and of one created after its ACK
+    pub refresh_cseq_probe: Option<(u32, u32)>,
     pub harness: Vec<String>,
 }
 
@@ -715,6 +717,7 @@ pub fn run_uas(case: &UasCase) -> Observed {
             had_dialog: false,
             terminate_sent: false,
             refresh_after: None,
+            refresh_cseq_probe: None,
             harness: vec![],
         };
         let mut keep: Vec<Box<dyn Any>> = vec![];
@@ -887,6 +890,7 @@ pub fn run_uac(case: &UacCase) -> Observed {
             had_dialog: false,
             terminate_sent: false,
             refresh_after: None,
+            refresh_cseq_probe: None,
             harness: vec![],
         };
         let mut keep: Vec<Box<dyn Any>> = vec![];
@@ -995,8 +999,19 @@ pub fn run_uac(case: &UacCase) -> Observed {
             obs.harness.push("INVITE not on the wire".into());
             return obs;
         };
+        // half of the cases: the provisional responses above 100 create an EARLY dialog (To-tag, Contact and a
+        // Record-Route list that DIFFERS from the 2xx's): the session's dialog state must come from the 2xx
+        let early_flow = case.rng % 2 == 0 && case.peer_provisionals.iter().any(|c| *c > 100);
         for code in &case.peer_provisionals {
-            inject(&endpoint, &tp, peer, &response_text(&invite_wire, *code, None, &[]));
+            if early_flow && *code > 100 {
+                let early_extra = vec![
+                    "Contact: <sip:early-only@192.0.2.250:5999>".to_string(),
+                    "Record-Route: <sip:early-only-proxy.example.com;lr>".to_string(),
+                ];
+                inject(&endpoint, &tp, peer, &response_text(&invite_wire, *code, Some(&case.to_tag), &early_extra));
+            } else {
+                inject(&endpoint, &tp, peer, &response_text(&invite_wire, *code, None, &[]));
+            }
             settle().await;
         }
         let bytes = response_text(&invite_wire, case.code, Some(&case.to_tag), &extra);
@@ -1004,8 +1019,43 @@ pub fn run_uac(case: &UacCase) -> Observed {
         inject(&endpoint, &tp, peer, &bytes);
         settle().await;
         let mut session = None;
-        for _ in 0..4 {
-            match tokio::time::timeout(Duration::from_secs(1), ini.receive()).await {
+        let mut early: Option<sip_ua::invite::initiator::Early> = None;
+        for _ in 0..8 {
+            // the 2xx for an early dialog is delivered through that early dialog while the initiator is polled
+            let step = match early.as_mut() {
+                Some(e) => {
+                    tokio::select! {
+                        r = ini.receive() => Ok(r),
+                        er = e.receive() => Err(er),
+                    }
+                }
+                None => Ok(match tokio::time::timeout(Duration::from_secs(1), ini.receive()).await {
+                    Ok(r) => r,
+                    Err(_) => {
+                        obs.harness.push("initiator.receive did not deliver the 2xx".into());
+                        break;
+                    }
+                }),
+            };
+            let r = match step {
+                Err(Ok(sip_ua::invite::initiator::EarlyResponse::Success(s, _))) => {
+                    session = Some(s);
+                    break;
+                }
+                Err(Ok(_)) => continue,
+                Err(Err(e)) => {
+                    obs.harness.push(format!("early.receive: {e}"));
+                    break;
+                }
+                Ok(r) => r,
+            };
+            match Ok::<_, ()>(r) {
+                Ok(Ok(IniResponse::Early(e, _, _))) => {
+                    if early.is_none() {
+                        early = Some(e);
+                    }
+                    continue;
+                }
                 Ok(Ok(IniResponse::Session(s, _))) => {
                     session = Some(s);
                     break;
@@ -1088,8 +1138,15 @@ pub fn run_uac(case: &UacCase) -> Observed {
             }
             match reinvite {
                 Some(re) => {
+                    // another task of the application creates a request while the re-INVITE is pending ...
+                    let during = printed_cseq(&dialog.create_request(Method::INFO));
                     inject(&endpoint, &tp, peer, &response_text(&re, 200, None, &[format!("Contact: {}", case.peer_contact)]));
                     settle().await;
+                    // ... and one after the 2xx has been ACKed
+                    let after = printed_cseq(&dialog.create_request(Method::INFO));
+                    if let (Some(during), Some(after)) = (during, after) {
+                        obs.refresh_cseq_probe = Some((during, after));
+                    }
                     keep.push(Box::new(h));
                 }
                 None => match h.await {
@@ -1422,6 +1479,14 @@ pub fn check_uac(case: &UacCase, out: &mut CaseOut) {
                 reqs.iter().map(|m| m.start.clone()).collect::<Vec<_>>()
             ),
         );
+    }
+    if let Some((during, after)) = obs.refresh_cseq_probe {
+        if after <= during {
+            out.fail(
+                "c11.cseq/uac-not-increasing-around-refresh-ack",
+                format!("request created while the refresh re-INVITE was pending got CSeq {during}, one created after its ACK got {after}"),
+            );
+        }
     }
     if let Some(pos) = obs.refresh_after {
         out.class("refresh-reinvite+ack");
